@@ -47,6 +47,15 @@ CHECKS = {
             "histories incl. operations issued from listeners and predicates; transition cover replayed on the real EventQueue; TraceDQ.tla is the "
             "exactly-once / FIFO / put-back-in-front / results oracle for each recorded execution.",
             "TLA+ model checking (TLC) + transition-cover replay of re-entrant queue programs + TLC trace validation"),
+    "C09": ("fault_enumeration", "7/C09", "seq",
+            "The models (CLImpl, DQImpl) contain 'the running user code throws' as an operation, so TLC enumerates a throw at every position of "
+            "every bounded re-entrant history and the abstract specs say what must remain (lists as the callbacks left them, only the taken batch "
+            "discarded, emptiness correct). For every cover script whose last operation has fault points (additions direct and through the "
+            "removers, enqueue, peek, take, dispatch, process*, copy construction and assignment of every container kind) the interpreters re-run "
+            "the script with the k-th fault point armed - k-th allocation, k-th copy/move/comparison of a tracked user type - for k = 1, 2, ... "
+            "until the operation completes untouched; TLC validates each such execution against the abstract spec extended with Faulted steps "
+            "(state unchanged, ledger closed, std::terminate never).",
+            "fault enumeration over TLC transition covers (k-th allocation / user-type copy / scripted throw) + TLC trace validation"),
     "C10": (MC, "7/C10", "seq",
             "Two reference/implementation models decide it: ObjGen.tla (2-3 dispatcher/queue objects; copy = same listeners and filters, no "
             "pending events, fresh counters; move = transfer; swap = exchange; with the defects 'uninit' and 'share' TLC violates FreshQueue / "
